@@ -25,7 +25,11 @@ EXPLANATION = (
     "RK-type step and (1/(2 sqrt h)) sqrt h = 1/2 with zero-order cancellation for derivative-free Milstein. "
     "R02.4: the two SRK step bodies evaluated with a *symbolic* tableau equal Roessler's SRI/SRA scheme templates, "
     "and the tableau modules they import satisfy the 25 SRI / 8 SRA order-1.5 conditions in exact rationals. "
-    "Not decided: higher-order Taylor agreement for Heun/midpoint/log-ODE/reversible Heun."
+    "R02.6: every (solver, noise type, option) step, specialised to a scalar SDE, is expanded as a weighted series in "
+    "(h, dW, U) whose coefficients are polynomials in symbolic partial derivatives of f and g, and compared with the "
+    "Ito / Stratonovich Taylor expansion generated from L0, L1 by symbolic differentiation: identical up to weight p, "
+    "equal in expectation at weight p + 1/2 (p = the strong order the solver object advertises). "
+    "Not decided: Taylor agreement for multi-dimensional non-commutative SDEs beyond the structural rules."
 )
 
 
